@@ -383,6 +383,21 @@ async fn run_client_h2(stim: &Value, log: &Rec) {
         ios.push(Ok(s_io));
         let incoming = tokio_stream::StreamExt::chain(tokio_stream::iter(ios), tokio_stream::pending());
         let mut sb = tonic::transport::Server::builder();
+        // server.h2opts: HTTP/2 transport knobs (small flow-control windows, adaptive window, frame size, one stream at a time, keep-alive
+        // pings): they shape how bytes travel and must not change what a call observes
+        for o in stim["server"]["h2opts"].as_array().cloned().unwrap_or_default() {
+            sb = match o.as_str().unwrap_or("") {
+                "small_stream_window" => sb.initial_stream_window_size(Some(1024)),
+                "small_conn_window" => sb.initial_connection_window_size(Some(4096)),
+                "adaptive_window" => sb.http2_adaptive_window(Some(true)),
+                "big_frames" => sb.max_frame_size(Some(1 << 20)),
+                "one_stream" => sb.max_concurrent_streams(Some(1)),
+                "keepalive" => sb.http2_keepalive_interval(Some(std::time::Duration::from_millis(700))).http2_keepalive_timeout(Some(std::time::Duration::from_secs(5))),
+                "header_list" => sb.http2_max_header_list_size(Some(1 << 20)),
+                "nodelay" => sb.tcp_nodelay(true).tcp_keepalive(Some(std::time::Duration::from_secs(60))),
+                _ => sb,
+            };
+        }
         // server.layer: a (do-nothing) tower layer added to the builder before or after the timeout is configured - the order of
         // builder calls must not matter
         let tmo = dur_of(&stim["server"], "timeout_ms", "timeout_us");
@@ -406,6 +421,18 @@ async fn run_client_h2(stim: &Value, log: &Rec) {
     let mut c = Some(c_io);
     let mut ep = tonic::transport::Endpoint::from_static("http://lab.test");
     if let Some(ms) = stim["client"]["endpoint_timeout_ms"].as_u64() { ep = ep.timeout(std::time::Duration::from_millis(ms)); }
+    // client.h2opts: the same kind of knobs on the channel
+    for o in stim["client"]["h2opts"].as_array().cloned().unwrap_or_default() {
+        ep = match o.as_str().unwrap_or("") {
+            "small_stream_window" => ep.initial_stream_window_size(Some(1024)),
+            "small_conn_window" => ep.initial_connection_window_size(Some(4096)),
+            "adaptive_window" => ep.http2_adaptive_window(true),
+            "keepalive" => ep.http2_keep_alive_interval(std::time::Duration::from_millis(900)).keep_alive_timeout(std::time::Duration::from_secs(5)).keep_alive_while_idle(true),
+            "header_list" => ep.http2_max_header_list_size(1 << 20),
+            "nodelay" => ep.tcp_nodelay(true).tcp_keepalive(Some(std::time::Duration::from_secs(60))),
+            _ => ep,
+        };
+    }
     let ch = ep
         .connect_with_connector(tower::service_fn(move |_: http::Uri| { let c = c.take(); async move { c.map(hyper_util::rt::TokioIo::new).ok_or_else(|| std::io::Error::other("no more connections")) } }))
         .await;
@@ -625,8 +652,10 @@ pub fn gen(seed: u64, tier: &str) -> Vec<Value> {
         let req_big = shape != "sstream";
         let ok = rng.gen_bool(0.5);
         let end = if ok { json!({"ok":true}) } else { json!({"ok":false,"code":10,"msg":str_json("gave up"),"details":[1,2,3],"meta":[{"n":"x-seed","bin":false,"v":[99]}]}) };
+        let bulk_s: Vec<&str> = [vec![], vec!["small_stream_window"], vec!["small_conn_window", "adaptive_window"], vec!["big_frames"], vec!["one_stream", "keepalive"]][j % 5].clone();
+        let bulk_c: Vec<&str> = [vec![], vec![], vec!["small_stream_window", "small_conn_window"], vec!["adaptive_window"], vec!["keepalive"]][(j / 5) % 5].clone();
         out.push(json!({"mode":"client","class":"h2_bulk","transport":"h2","shim":{"cap":65536,"rq":65536,"wq":65536,"pend":0},"shape":shape,
-            "server":{"send":[],"accept":[],"max_dec":-1,"max_enc":-1},"client":{"send":"","accept":[],"max_dec":-1,"max_enc":-1},
+            "server":{"send":[],"accept":[],"max_dec":-1,"max_enc":-1,"h2opts":bulk_s},"client":{"send":"","accept":[],"max_dec":-1,"max_enc":-1,"h2opts":bulk_c},
             "req":{"meta":[],"msgs": if req_big { big.clone() } else { vec![bytes_json(&[1])] }},
             "script":{"init_meta":[],"msgs": if shape == "cstream" { vec![bytes_json(&[2])] } else { big.clone() },"end": if shape == "cstream" { json!({"ok":true}) } else { end },"fail_before":false,"no_compress":false}}));
     }
@@ -661,10 +690,13 @@ pub fn gen(seed: u64, tier: &str) -> Vec<Value> {
         let (rq, wq, pe) = ([1usize, 2, 7, 64, 65536][rng.gen_range(0..5)], [1usize, 3, 9, 100, 65536][rng.gen_range(0..5)], [0usize, 0, 2, 3][rng.gen_range(0..4)]);
         let shim = if h2 { json!({"cap": 65536, "rq": rq, "wq": wq, "pend": pe}) } else { json!({"cap":0,"rq":0,"wq":0,"pend":0}) };
         let warmup = ["", "", "", "full", "cancel"][rng.gen_range(0..5)];
+        let pick = |rng: &mut rand::rngs::StdRng, all: &[&str]| -> Vec<String> { if rng.gen_bool(0.5) { vec![] } else { all.iter().filter(|_| rng.gen_bool(0.3)).map(|x| x.to_string()).collect() } };
+        let s_h2 = if h2 { pick(&mut rng, &["small_stream_window", "small_conn_window", "adaptive_window", "big_frames", "one_stream", "keepalive", "header_list", "nodelay"]) } else { vec![] };
+        let c_h2 = if h2 { pick(&mut rng, &["small_stream_window", "small_conn_window", "adaptive_window", "keepalive", "header_list", "nodelay"]) } else { vec![] };
         let noise = if h2 { [0u64, 0, 2, 4][rng.gen_range(0..4)] } else { 0 };
         out.push(json!({"mode":"client","class": if h2 {"h2"} else {"inproc"},"transport": if h2 {"h2"} else {"inproc"},"shim":shim,"shape":shape,
-            "server":{"send":s_send,"accept":s_acc,"max_dec":-1,"max_enc":-1},
-            "client":{"send":c_send,"accept":c_acc,"max_dec":-1,"max_enc":-1,"clone":rng.gen_bool(0.3),"warmup":warmup,"noise":noise},
+            "server":{"send":s_send,"accept":s_acc,"max_dec":-1,"max_enc":-1,"h2opts":s_h2},
+            "client":{"send":c_send,"accept":c_acc,"max_dec":-1,"max_enc":-1,"clone":rng.gen_bool(0.3),"warmup":warmup,"noise":noise,"h2opts":c_h2},
             "req":{"meta":crate::labs::status::rand_meta(&mut rng),"msgs":req_msgs,"pend":(0..=nreq + 1).filter(|_| rng.gen_bool(0.25)).collect::<Vec<usize>>()},
             "script":rand_script(&mut rng, shape)}));
     }
